@@ -1171,3 +1171,92 @@ func init() {
 		}
 	}
 }
+
+// ---------------------------------------------------------------- C04: comparators with ties
+
+// A strict comparator may tie keys that are not identical (case-insensitive names, points compared by one
+// coordinate, NaNs): the tree must treat tied keys as ONE key -- that is what "any strict comparator" means
+// for a symbol table. Here: ints compared by their tens (0 and 5 tie, 10 and 15 tie). Every history up to
+// length 4 (5) over Upsert(k, v) for k in {0, 5, 10, 15, 20} and Delete of a present class.
+func init() {
+	prev := extras["C04"]
+	extras["C04"] = func(rep *core.Report) {
+		if prev != nil {
+			prev(rep)
+		}
+		L := 4
+		if thorough {
+			L = 5
+		}
+		less := func(a, b int) bool { return a/10 < b/10 }
+		keys := []int{0, 5, 10, 15, 20}
+		type opT struct {
+			del bool
+			k   int
+			v   string
+		}
+		var ops []opT
+		for _, k := range keys {
+			ops = append(ops, opT{false, k, "a"}, opT{false, k, "b"}, opT{true, k, ""})
+		}
+		n := 0
+		var run func(hist []opT)
+		run = func(hist []opT) {
+			if len(hist) > 0 {
+				n++
+				t := bstree.New[int, string](less)
+				model := map[int]string{}
+				var w []string
+				ok := true
+				for _, o := range hist {
+					if o.del {
+						if _, present := model[o.k/10]; !present {
+							return // deleting an absent key is the business of the main search (recorded Size finding)
+						}
+						w = append(w, fmt.Sprintf("Delete(%d)", o.k))
+						if err := t.Delete(o.k); err != nil {
+							rep.Add("BsTree.Delete/present-key-reported-not-found/tied-keys", fmt.Sprintf("Delete(%d) returned %v although a key tied with it is present (classes %v)", o.k, err, model), strings.Join(w, "; "), nil)
+							ok = false
+						}
+						delete(model, o.k/10)
+					} else {
+						w = append(w, fmt.Sprintf("Upsert(%d,%s)", o.k, o.v))
+						t.Upsert(o.k, o.v)
+						model[o.k/10] = o.v
+					}
+				}
+				wit := "BsTree(by tens): " + strings.Join(w, "; ")
+				if ok && t.Size() != len(model) {
+					rep.Add("BsTree.Size/tied-keys", fmt.Sprintf("Size = %d, want %d classes %v", t.Size(), len(model), model), wit, nil)
+				}
+				for _, k := range keys {
+					it, err := t.Get(k)
+					want, present := model[k/10]
+					if present != (err == nil) || (present && it.Val != want) {
+						rep.Add("BsTree.Get/tied-keys", fmt.Sprintf("Get(%d) = (%q, %v), want present=%t value %q", k, it.Val, err, present, want), wit, nil)
+						break
+					}
+				}
+				var got, wantT []string
+				t.Traverse(func(it bstree.Item[int, string]) { got = append(got, fmt.Sprintf("%d=%s", it.Key/10, it.Val)) })
+				for c := 0; c <= 2; c++ {
+					if v, present := model[c]; present {
+						wantT = append(wantT, fmt.Sprintf("%d=%s", c, v))
+					}
+				}
+				if fmt.Sprint(got) != fmt.Sprint(wantT) {
+					rep.Add("BsTree.Traverse/tied-keys", fmt.Sprintf("Traverse visited (class=value) %v, want %v", got, wantT), wit, nil)
+				}
+			}
+			if len(hist) == L {
+				return
+			}
+			for _, o := range ops {
+				run(append(hist[:len(hist):len(hist)], o))
+			}
+		}
+		run(nil)
+		rep.Inc("transitions", n*L)
+		rep.Set("tied_keys_family", fmt.Sprintf("%d histories up to length %d with a comparator that ties 0~5 and 10~15", n, L))
+	}
+}
